@@ -859,6 +859,10 @@ fn fuzz_stage(p: &PropDef, seed: u64, secs: u64, known: &KnownFindings) -> FuzzS
                 Err(e) => st.inconclusive.push(format!("fuzz target {target}: cannot re-run {name}: {e}")),
             }
         }
+        if stats.0 == 0 && found_new.is_empty() {
+            // seen once in a background sweep (C19, 1 s, no output): the stage then adds nothing, say so
+            st.notes.push(format!("fuzz target {target} reported no executions (see {}): the coverage-guided stage added nothing to this run", log.display()));
+        }
         if cut_off {
             st.notes.push(format!("fuzz target {target}: last jobs cut off {}s after the budget", 90));
         } else if let Ok(s) = &status {
